@@ -237,8 +237,35 @@ def _cmp(op, pyop, a, b):
     d = sub(a, b)              # normalise to  d <op> 0
     return _cmp0(op, pyop, d)
 
+KNOWN_POS = set()      # ids of variables assumed > 0 on the current path (reset by the engine at every path start)
+
+def is_pos(t, depth=0):
+    """syntactic proof that t > 0 from the declared positivity of variables"""
+    if not is_t(t): return (not isinstance(t, float)) and t > 0
+    if depth > 6: return False
+    if t.op == 'var': return t.id in KNOWN_POS
+    if t.op == 'cube': return is_pos(t.args[0], depth + 1)
+    if t.op == 'mul':
+        a, b = t.args
+        if not is_t(a): return a > 0 and is_pos(b, depth + 1)
+        return is_pos(a, depth + 1) and is_pos(b, depth + 1)
+    if t.op == 'add':
+        return t.args[0] >= 0 and all(is_pos(a, depth + 1) for a in t.args[1:])
+    if t.op == 'rdiv': return is_pos(t.args[0], depth + 1) and is_pos(t.args[1], depth + 1)
+    if t.op in ('cbrt', 'sqrt'): return is_pos(t.args[0], depth + 1)
+    return False
+
+def is_neg(t):
+    if not is_t(t): return (not isinstance(t, float)) and t < 0
+    if t.op == 'mul' and not is_t(t.args[0]) and t.args[0] < 0: return is_pos(t.args[1])
+    if t.op == 'add' and t.args[0] <= 0: return all(is_neg(a) for a in t.args[1:])
+    return False
+
 def _cmp0(op, pyop, d, depth=0):
     if not is_t(d): return bool(pyop(d, 0))
+    if KNOWN_POS:
+        if is_pos(d): return False                      # d < 0, d <= 0, d == 0 are all false
+        if is_neg(d): return op in ('lt0', 'le0')
     if d.op == 'ite' and depth < 8 and _leafy(d):      # guarded constants: stay propositional
         return ite(d.args[0], _cmp0(op, pyop, d.args[1], depth + 1), _cmp0(op, pyop, d.args[2], depth + 1))
     return mk(op, [d], 'B')
@@ -367,3 +394,52 @@ def evaluate(t, env, memo=None):
         try: memo[x.id] = norm_num(r) if not isinstance(r, bool) else r
         except (TypeError, ValueError): memo[x.id] = float('nan')
     return memo[t.id]
+
+
+# ---------------------------------------------------------------- polynomial normal form (for identities the SMT solver need not see)
+def poly(t, cap=20000):
+    """{monomial (sorted tuple of var names) : Fraction} for a term built from + * cube, numbers and variables; else None"""
+    memo = {}
+    def go(x):
+        if not isinstance(x, T):
+            if isinstance(x, bool): x = int(x)
+            if isinstance(x, (int, Fraction)): return {(): Fraction(x)} if x != 0 else {}
+            return None
+        if x.id in memo: return memo[x.id]
+        r = None
+        if x.op == 'var' and x.sort != 'B': r = {(x.args[0],): Fraction(1)}
+        elif x.op == 'add':
+            r = {}
+            for a in x.args:
+                p = go(a)
+                if p is None: r = None; break
+                for m, c in p.items():
+                    v = r.get(m, 0) + c
+                    if v == 0: r.pop(m, None)
+                    else: r[m] = v
+        elif x.op == 'mul':
+            p, q = go(x.args[0]), go(x.args[1])
+            r = _pmul(p, q, cap)
+        elif x.op == 'cube':
+            p = go(x.args[0]); r = _pmul(_pmul(p, p, cap), p, cap)
+        elif x.op == 'rdiv' and not isinstance(x.args[1], T):
+            p = go(x.args[0]); r = None if p is None else {m: c / Fraction(x.args[1]) for m, c in p.items()}
+        memo[x.id] = r
+        return r
+    return go(t)
+
+def _pmul(p, q, cap):
+    if p is None or q is None or len(p) * len(q) > cap: return None
+    r = {}
+    for m1, c1 in p.items():
+        for m2, c2 in q.items():
+            m = tuple(sorted(m1 + m2)); v = r.get(m, 0) + c1 * c2
+            if v == 0: r.pop(m, None)
+            else: r[m] = v
+    return r
+
+def poly_equal(a, b):
+    """True if both sides are polynomials with identical normal forms; None if undecided by normalisation"""
+    p, q = poly(a), poly(b)
+    if p is None or q is None: return None
+    return True if p == q else None
